@@ -120,7 +120,8 @@ def _keys(repo, rep):
               detail="%s / %s" % ([src(x) for x in a], [src(x) for x in b]))
     for f in (mac, uim):
         text = L.text(f.node)
-        rep.check("node.name is None" in text and "'render'" in text,
+        rep.check(("node.name is None" in text or
+                   "node.name is not None" in text) and "'render'" in text,
                   "R09.1", f.qualname, "the whole template is the macro "
                   "named None -> 'render'", construct="render-default",
                   where=L.where(f))
